@@ -187,3 +187,55 @@ func VH_C01_concurrent_snapshot() {
 	}
 	verifReach("C01.concurrent.done", true)
 }
+
+// the snapshot for any client address over any last-used-address history (addresses symbolic):
+// a permutation of the list, entries last used by this client first, each group in list order
+func VH_C01_snapshot_symbolic() {
+	n := 2 + verifChoice("n", 2)
+	l := list.New()
+	entries := make([]*CipherEntry, n)
+	zero := netip.Addr{}
+	for i := 0; i < n; i++ {
+		e := MakeCipherEntry("id", verifKey(0, "s1"), "s1")
+		if verifFlag("has-history") {
+			b := verifBytes("last", 4)
+			e.lastClientIP = netip.AddrFrom4([4]byte{b[0], b[1], b[2], b[3]})
+		}
+		entries[i] = &e
+		l.PushBack(&e)
+	}
+	cl := NewCipherList()
+	cl.Update(l)
+	client := zero
+	if verifFlag("client-known") {
+		b := verifBytes("client", 4)
+		client = netip.AddrFrom4([4]byte{b[0], b[1], b[2], b[3]})
+	}
+	snap := cl.SnapshotForClientIP(client)
+	verifAssert("C01.symsnap.length", len(snap) == n)
+	if len(snap) != n {
+		return
+	}
+	// position of every entry in the snapshot
+	pos := make([]int, n)
+	for i := range entries {
+		pos[i] = -1
+		for j := range snap {
+			if snap[j] != nil && snap[j].Value.(*CipherEntry) == entries[i] {
+				verifAssert("C01.symsnap.once", pos[i] == -1)
+				pos[i] = j
+			}
+		}
+		verifAssert("C01.symsnap.present", pos[i] >= 0)
+	}
+	for i := 0; i < n; i++ {
+		for j := i + 1; j < n; j++ {
+			mi := verifAll(client != zero, entries[i].lastClientIP == client)
+			mj := verifAll(client != zero, entries[j].lastClientIP == client)
+			// same group: list order kept; different groups: the matching one first
+			verifAssert("C01.symsnap.order", verifImplies(mi == mj, pos[i] < pos[j]))
+			verifAssert("C01.symsnap.matching-first", verifImplies(verifAll(mj, !mi), pos[j] < pos[i]))
+		}
+	}
+	verifReach("C01.symsnap.reordered", pos[0] > pos[1])
+}
